@@ -33,6 +33,18 @@ NUM = re.compile(r"(?<![\w.])[-+]?\d+\.?\d*(?:[eE][-+]?\d+)?(?![\w.(])")
 TRICKY = ["nr", "cutoff", "target", "x", "xy", "dr", "Al", "A-B", "interpolation", "nrho", "y", "Al.atomic_mass", "cutoff_rho", "O"]
 
 
+RAW_FORMULAS = [
+  "-1.5^2 + q*r",
+  "q*exp(-r/0.35) - -2.5^2/(r+1)^6",
+  "2*-1.5^3 + r^-0.5/(1+r)",
+  "0 -3^2 + r*q - 1e-3*r^2",
+  "q - -0.25^2*r + 3.5e+1/(r + 2)",
+  "-2^r*1e-2 + q",
+  "abs(-1.25)^2 - -1.25^2 + q*r",
+  "q*r^2 -0.5^2*r + -4.0",
+]
+
+
 def gen_model(rng, i):
   kind = ["pair", "eam", "fs", "adp", "pair"][i % 5]
   if kind == "pair":
@@ -50,7 +62,7 @@ def gen_cases(rng, tier):
   for i in range(n):
     m = gen_model(rng, i)
     route = "cli" if i % 20 == 3 else rng.choice(["inproc", "inproc", "main"])
-    cases.append({"model": m, "route": route, "tseed": rng.randrange(1 << 30)})
+    cases.append({"model": m, "route": route, "tseed": rng.randrange(1 << 30), "raw": (i // 5 if i % 5 in (0, 4) and i % 3 != 1 else None)})
   return cases
 
 
@@ -194,6 +206,32 @@ def run_case(case, ctx):
   for n, v in variables + unused:
     if n in TRICKY:
       ctx.cls("variable_named_like_option:" + n)
+  if case.get("raw") is not None and m["type"] == "pair":
+    # a hand-written formula (no brackets around its literals): placeholders standing where the surrounding text decides
+    # the meaning - a negative literal as the base of a power, after a binary operator, inside a call, as an exponent
+    raw = RAW_FORMULAS[case["raw"] % len(RAW_FORMULAS)]
+    toks = [mt for mt in NUM.finditer(raw)]
+    pick = sorted(rng.sample(range(len(toks)), rng.randint(1, min(3, len(toks)))), reverse=True)
+    if case["raw"] % 2 == 0:
+      neg = [i_ for i_, mt in enumerate(toks) if mt.group(0).startswith("-")]
+      pick = sorted(set(pick) | set(neg[:1]), reverse=True)
+    traw = raw
+    for pi in pick:
+      mt = toks[pi]
+      nm = "rawv%d" % pi
+      variables.append((nm, mt.group(0)))
+      traw = traw[:mt.start()] + "${%s}" % nm + traw[mt.end():]
+      used += 1
+    ctx.cls("hand_written_formula_with_placeholders")
+    if any(v_.startswith("-") for n_, v_ in variables if n_.startswith("rawv")):
+      ctx.cls("negative_literal_lifted_from_hand_written_formula")
+    for lst, txt in ((items, raw), (templ, traw), (subst, raw)):
+      pf = [x for x in lst if x[0] == "Potential-Form"]
+      if pf:
+        pf[0][1].append(("zraw(r, q)", txt))
+      else:
+        lst.append(("Potential-Form", [("zraw(r, q)", txt)]))
+      [x for x in lst if x[0] == "Pair"][0][1].append(("He-Ne", "zraw 0.75"))
   plain = emit.items_text(items)
   t_templ = text_with_vars(templ, variables + unused, rng)
   t_subst = emit.items_text(subst)
